@@ -16,7 +16,6 @@ a larger one (declarative form, independent of the loop in `ascentSum`). -/
 def ascentPositions (vals : List Nat) : List Nat :=
   (List.range (vals.length - 1)).filter fun i => vals.getD i 0 < vals.getD (i + 1) 0
 
-def IsAcgt (s : List Char) : Prop := ∀ c ∈ s, (nucIdx c).isSome = true
 
 /-- length, flag symbol and digit symbols of the check (defined for the empty strand too). -/
 theorem C07_shape (s : List Char) (n : Nat) (hn : 1 ≤ n) (hs : IsAcgt s) :
